@@ -101,7 +101,7 @@ pub fn expected_rejections(h: &HirSpec) -> Vec<(String, &'static str, String)> {
     for o in &h.operations {
         let file = format!("src/request/{}.rs", o.file_name());
         for t in o.parameters.iter().map(|p| &p.ty).chain(std::iter::once(&o.ret)) {
-            if let Some(m) = t.inner_model() {
+            if let Some(m) = crate::util::model_of(t) {
                 if !h.schemas.contains_key(m) {
                     out.push((file.clone(), "missing_model", format!("{} mentions model {} which has no file", o.name, m)));
                     out.push((format!("examples/{}.rs", o.file_name()), "missing_model", format!("{} mentions model {}", o.name, m)));
@@ -111,7 +111,7 @@ pub fn expected_rejections(h: &HirSpec) -> Vec<(String, &'static str, String)> {
     }
     for (name, r) in &h.schemas {
         for f in r.fields() {
-            if let Some(m) = f.ty.inner_model() {
+            if let Some(m) = crate::util::model_of(&f.ty) {
                 if !h.schemas.contains_key(m) {
                     out.push((format!("src/model/{}.rs", mir_rust::sanitize_filename(name)), "missing_model", format!("schema {} mentions model {} which has no file", name, m)));
                 }
